@@ -107,6 +107,10 @@ impl<T: RefCnt> HybridProtection<T> {
             Err((unused_debt, replacement)) => {
                 #[cfg(arc_swap_verif)]
                 verif_rt::probe(verif_rt::probes::FB_HELPED, false);
+                // We got a (possibly) different pointer out. That one is already protected. Take
+                // ownership of it first: releasing the candidate below may run the destructor of
+                // the pointee, and if that panics, the replacement must not be lost.
+                let replacement = unsafe { Self::new(replacement as *mut _, None) };
                 // The debt is on the candidate we provided and it is unused, we so we just pay it
                 // back right away.
                 if !unused_debt.pay::<T>(candidate) {
@@ -116,9 +120,8 @@ impl<T: RefCnt> HybridProtection<T> {
                     verif_rt::event(verif_rt::probes::READER_STORAGE, storage as *const _ as usize);
                     unsafe { T::dec(candidate) };
                 }
-                // We got a (possibly) different pointer out. But that one is already protected and
-                // the slot is paid back.
-                unsafe { Self::new(replacement as *mut _, None) }
+                // The slot is paid back.
+                replacement
             }
         };
         // The helping slot is free again in both cases; only now may the node be retired if the
